@@ -349,7 +349,7 @@ CHECKS["C12"] = {
             "flip coincides with a partial tick of the set). "
             "Two-input branches: a branch whose first input is not required to be valid and one whose first input is passive, second input required; "
             "every key x first-input x second-input history (T=4): a newly selected branch is evaluated at once when its second input holds a value, "
-            "whatever the state of the first.",
+            "whatever the state of the first; the same two inputs packed into one structural argument (to_tsl) for a branch that reads the list and a branch that returns one of its leaves directly.",
     "bounds": {"quick": "T=5 (3125 key histories x 32 input histories x 14 configurations)", "thorough": "T=6"},
     "min_counters": {"quick": {"nontrivial": 100000, "states": 3000, "switch.cases_sdr": 50000}},
     "assumptions": COMMON_ASSUMPTIONS + ["A collection output reset to the EMPTY collection at a switch counts as 'no output of the new branch yet'.",
